@@ -3,9 +3,14 @@
 always matches what ./check implements)."""
 import json, subprocess
 
-HOOK_COMMITS = ["4609c65"]
+HOOK_COMMITS = ["4609c65", "f4b1344"]
 
 CHECKS = {
+ "C17": dict(engine="SP", cat="exploration",
+   technique="bounded-exhaustive enumeration of event sequences over a 24-event alphabet from 7 start states plus proptest-generated longer sequences; state-graph observer oracle on the wire log",
+   text="All sequences of peer packets / application actions / clock advances up to depth 2 (quick) or 3 (thorough, ~0.2M) from every handshake/teardown state and both handshake directions, plus generated sequences up to 20 events; an observer of docs/states.dot checks SYN-ACK form/interval/count, own FIN numbering/ordering/back-off/dueness, peer FIN honoured only in sequence and acked/answered at the same instant, RESET silence and prompt failure, silence after the end.",
+   note="the exact end of the connection task comes from the cfg-guarded observer hook; hostile 'future' acks (acknowledging unsent data) exempt the data-before-FIN clauses", ref="§5 C17"),
+
  "C05": dict(engine="SP", cat="exploration",
    technique="proptest-generated ACK/window schedules from a scripted peer; sender reference observer evaluated at every first transmission",
    text="Generated write patterns against generated cumulative-ACK and window schedules (grow, shrink, zero, re-open, < mss, withheld ACKs); at every first transmission: outstanding <= last window outside possible recovery, nothing new at window 0, slow-start bound before the first loss event, one segment after an RTO. Same-instant peer packets are evaluated as processed and as unprocessed.",
